@@ -211,7 +211,9 @@ def hist_to_script(hist, src):
     resolver = "lru:%d" % c["lruMax"] if c["resolver"] == "lru" else c["resolver"]
     cfg = {"src": src, "policy": c["policy"], "drain": c["drain"], "retries": c["retries"], "ver": c["ver"],
            "ping_tmo": c["pingTmo"] * 1000 // TPS, "ka": c["ka"], "rejoin": c["rejoin"], "resolver": resolver, "cid": c["cid"],
-           "tam_in": c["tamIn"] if c["tamIn"] > 0 else -1, "sei": c["sei"] if c["sei"] > 0 else -1}
+           "tam_in": c["tamIn"] if c["tamIn"] > 0 else -1, "sei": c["sei"] if c["sei"] > 0 else -1,
+           # a two-unit CONNECT: a user name makes it longer than the one-unit buffer (20 bytes) and shorter than two units
+           "copt": 1 if c.get("connectUnits", 1) > 1 else 0}
     steps = []
     for d in hist[1:]:
         d = dict(d)
@@ -239,9 +241,10 @@ def run_mc(pid, tier, workdir, export_depth=None):
     summary = {"instances": [], "distinct": 0, "generated": 0, "witnesses": set(), "scripts": [], "cex": [], "wall_s": 0.0, "complete": True}
     for i, consts in enumerate(mcconf.INSTANCES[pid][tier]):
         consts = dict(consts)
+        every = consts.pop("_export_every", None)
         if export_depth is not None:
             consts["ExportDepth"] = export_depth
-            consts["ExportEvery"] = mcconf.EXPORT_EVERY.get(tier, 53)
+            consts["ExportEvery"] = every or mcconf.EXPORT_EVERY.get(tier, 53)
         cfg = mcconf.cfg_text(consts)
         limit = int(os.environ.get("VERIF_MC_BUDGET_S", "150" if tier == "quick" else "1500"))
         res = run_tlc(os.path.join(workdir, "mc%d" % i), SPEC, "EngineConf", cfg, workers=TLC_WORKERS, timeout=limit, java_opts="-Xss1g -Xmx16g", soft=True)
@@ -917,8 +920,8 @@ def check_pump(pid, tier, seed):
 
 def engine_volume(tier):
     if tier == "thorough":
-        return dict(scripted=2000, adversarial=2000, faithful=2000, cycles=3000, races=3000, length=80, s1=6000)
-    return dict(scripted=150, adversarial=150, faithful=150, cycles=300, races=300, length=50, s1=600)
+        return dict(scripted=2000, adversarial=2000, faithful=2000, cycles=3000, races=3000, length=80, s1=20000)
+    return dict(scripted=150, adversarial=150, faithful=150, cycles=300, races=300, length=50, s1=2500)
 
 
 def sample_evenly(items, n):
@@ -926,6 +929,15 @@ def sample_evenly(items, n):
         return items
     step = len(items) / float(n)
     return [items[int(i * step)] for i in range(n)]
+
+
+def sample_deep(items, n):
+    """Scripts are exported in breadth-first order, so later ones are deeper and replay everything their prefixes do:
+    half of the sample comes from the deepest quarter, the rest evenly from the whole."""
+    if len(items) <= n:
+        return items
+    q = len(items) * 3 // 4
+    return sample_evenly(items[:q], n // 2) + sample_evenly(items[q:], n - n // 2)
 
 
 def judge_trace(pid, trace, scripts, workdir, known, log, tag):
@@ -960,7 +972,7 @@ def check_engine_property(pid, tier, seed):
     # 1. spec: the bounded instance of Engine.tla with this property's monitor composed
     depth = mcconf.EXPORT_DEPTH.get(pid, {}).get(tier, 0)
     mc = run_mc(pid, tier, workdir, export_depth=depth)
-    s1 = sample_evenly(mc["scripts"], vol["s1"])
+    s1 = sample_deep(mc["scripts"], vol["s1"])
     cex = [c["script"] for c in mc["cex"][:20]]
     s1_path = os.path.join(workdir, "s1.scripts")
     with open(s1_path, "w") as f:
